@@ -380,6 +380,12 @@ func init() {
 				unsup("abi unpack into a local cell")
 			}
 			fr.store(st, p, pt.Elem(), fv)
+			// whatever the decoder hands out (slices, big integers) exists by the time it returns
+			na := Fresh("alloc", SInt)
+			nonNegSyms[na.Name] = true
+			fr.C.addFact(Le(st.Alloc, na))
+			st.Alloc = na
+			fr.C.allocFacts(fv, st.Alloc)
 			return fr.freshResult(cc.Signature(), "abi.unpack"), st
 		})
 	}
